@@ -123,3 +123,20 @@ func FSP(a int) (int, S3, *T) { Counter++; return -1, S3{}, nil }
 //
 //go:noinline
 func GK[T any](a int) int { Counter++; return -7600 - a }
+
+// SP is a comparable struct that carries indirection: a pointer field and an interface field holding a pointer.
+// Two values built separately from the same id are deep-equal but not ==.
+type SP struct {
+	P *int
+	I interface{}
+	N string
+}
+
+// MkSP builds a fresh SP for an id (new pointers every time).
+func MkSP(id int) SP {
+	a, b := id, id*7
+	return SP{P: &a, I: &b, N: "n"}
+}
+
+//go:noinline
+func FPtrS(s SP, k int) int { Counter++; return -4400 - *s.P - k }
